@@ -48,6 +48,8 @@ structure PHdr where
   filesz : Nat
   memsz : Nat
   bytes : List UInt8
+  paddr : Nat      -- p_paddr: carried by the description, never used (the image is at the VIRTUAL address)
+  align : Nat      -- p_align: likewise
   deriving Repr, Inhabited
 
 /-- A symbol-table entry with its name resolved through the string table. -/
